@@ -79,7 +79,7 @@ Qed.
    'filtered' outcome, which creates no new work), its Shutdown returns; no new source activity, no clock *)
 Definition finishing (a : action) : bool :=
   match a with
-  | SrcEmit _ | SrcReturnNil | SrcReturnErr | SrcRestart | Tick | MainTimeout => false
+  | SrcEmit _ | SrcReturnNil | SrcReturnErr | SrcRestart | SrcSetupFail | Tick | MainTimeout => false
   | Return _ _ o | Callback _ _ o => match o with ORes [] => true | _ => false end
   | _ => true
   end.
@@ -253,6 +253,7 @@ Proof.
   - destruct (nth_error (cbs s) i) as [[m [|[c it] rest]]|]; try discriminate.
     destruct (try_send nt s c it) as [s1| |] eqn:E; try discriminate. injection H as <-.
     rewrite node_set_cbs. apply (Hts _ _ _ E).
+  - destruct (src s); try discriminate. injection H as <-. exact Ho.
 Qed.
 
 (* ------------------------------------------------------------------ the forward closing invariant *)
